@@ -3,6 +3,7 @@ From Coq Require Import Bool ZArith List.
 From K Require Import Lib.Types Model.Machine Model.Bus Model.Addressing Model.Exec Spec.ISA Proofs.RegProofs Proofs.EaProofs.
 From K Require Import Model.Cost Model.Alu Model.Exec Proofs.MemProofs Proofs.CtlProofs Proofs.StcProofs.
 From K Require Import Model.Machine Proofs.StepProofs Proofs.StepRefines Proofs.StepRefinesStc.
+From K Require Import Spec.ISA Model.Exec Model.Cost Proofs.CtlProofs Proofs.StcExtProofs Proofs.StepRefinesStcExt.
 Open Scope Z_scope.
 
 Theorem ea_register_indirect :
@@ -63,6 +64,50 @@ Theorem step_stc_register_indirect :
     step s = Ok n (set_opc (pc s + 2) s').
 Proof. exact step_stc_ern_proof. Qed.
 
+(* STC.W CCR,<ea> with a displacement or an absolute address: from the instruction words in memory (0140 prefix, operation
+   word, extension words) to the reference store; [stc_charge k a] = k fetch cycles + one word cycle at a *)
+Theorem step_stc_word_displacement16 :
+  forall s w1 d w3 w4 r disp n s',
+  cpu_ok s -> bus_bytes_ok s -> fault s = false -> pc s mod 2 = 0 -> 0 <= pc s -> pc s + 6 < 4294967296 ->
+    mem_read SW s (pc s) = Some 0x0140 -> mem_read SW s (pc s + 2) = Some w1 -> mem_read SW s (pc s + 4) = Some d ->
+    decode_ref 0x0140 w1 d w3 w4 = Some (IStcW (EDisp r disp), 6) ->
+    sem_ref (IStcW (EDisp r disp)) 6 s = Some s' ->
+    stc_charge 3 (ea_addr SW s (EDisp r disp)) (set_opc (pc s + 4) s') = Ok n (set_opc (pc s + 4) s') ->
+    step s = Ok n (set_opc (pc s + 4) s').
+Proof. exact step_stc_disp16_proof. Qed.
+
+Theorem step_stc_word_absolute16 :
+  forall s w1 d w3 w4 a n s',
+  cpu_ok s -> bus_bytes_ok s -> fault s = false -> pc s mod 2 = 0 -> 0 <= pc s -> pc s + 6 < 4294967296 ->
+    mem_read SW s (pc s) = Some 0x0140 -> mem_read SW s (pc s + 2) = Some w1 -> mem_read SW s (pc s + 4) = Some d ->
+    decode_ref 0x0140 w1 d w3 w4 = Some (IStcW (EAbs a), 6) ->
+    sem_ref (IStcW (EAbs a)) 6 s = Some s' ->
+    stc_charge 3 a (set_opc (pc s + 4) s') = Ok n (set_opc (pc s + 4) s') ->
+    step s = Ok n (set_opc (pc s + 4) s').
+Proof. exact step_stc_abs16_proof. Qed.
+
+Theorem step_stc_word_absolute24 :
+  forall s w1 h l w4 a n s',
+  cpu_ok s -> bus_bytes_ok s -> fault s = false -> pc s mod 2 = 0 -> 0 <= pc s -> pc s + 8 < 4294967296 ->
+    mem_read SW s (pc s) = Some 0x0140 -> mem_read SW s (pc s + 2) = Some w1 ->
+    mem_read SW s (pc s + 4) = Some h -> mem_read SW s (pc s + 6) = Some l ->
+    decode_ref 0x0140 w1 h l w4 = Some (IStcW (EAbs a), 8) ->
+    sem_ref (IStcW (EAbs a)) 8 s = Some s' ->
+    stc_charge 4 a (set_opc (pc s + 6) s') = Ok n (set_opc (pc s + 6) s') ->
+    step s = Ok n (set_opc (pc s + 6) s').
+Proof. exact step_stc_abs24_proof. Qed.
+
+Theorem step_stc_word_displacement24 :
+  forall s w1 w2 h l r disp n s',
+  cpu_ok s -> bus_bytes_ok s -> fault s = false -> pc s mod 2 = 0 -> 0 <= pc s -> pc s + 10 < 4294967296 ->
+    mem_read SW s (pc s) = Some 0x0140 -> mem_read SW s (pc s + 2) = Some w1 -> mem_read SW s (pc s + 4) = Some w2 ->
+    mem_read SW s (pc s + 6) = Some h -> mem_read SW s (pc s + 8) = Some l ->
+    decode_ref 0x0140 w1 w2 h l = Some (IStcW (EDisp r disp), 10) ->
+    sem_ref (IStcW (EDisp r disp)) 10 s = Some s' ->
+    stc_charge 5 (ea_addr SW s (EDisp r disp)) (set_opc (pc s + 8) s') = Ok n (set_opc (pc s + 8) s') ->
+    step s = Ok n (set_opc (pc s + 8) s').
+Proof. exact step_stc_disp24_proof. Qed.
+
 Print Assumptions ea_register_indirect.
 Print Assumptions ea_displacement_16.
 Print Assumptions ea_displacement_24.
@@ -74,3 +119,7 @@ Print Assumptions pre_decrement_register.
 Print Assumptions stc_register_indirect.
 Print Assumptions stc_predec_is_postinc.
 Print Assumptions step_stc_register_indirect.
+Print Assumptions step_stc_word_displacement16.
+Print Assumptions step_stc_word_absolute16.
+Print Assumptions step_stc_word_absolute24.
+Print Assumptions step_stc_word_displacement24.
